@@ -93,7 +93,7 @@ def shapes : List (String × List String) := [
   ("ASTComputeExpression", ["before_value", "after_value", "operator"]),
   ("ASTComputeOperator", ["enum"]),
   ("ASTConfigStringExpression", ["name", "value"]),
-  ("ASTCreateTableAsStatement", ["table_name", "select_statement"]),
+  ("ASTCreateTableAsStatement", ["table_name", "if_not_exists", "select_statement"]),
   ("ASTCreateTableStatement", ["table_name", "if_not_exists", "columns", "primary_key", "unique_key", "key", "fulltext_key", "foreign_key", "partitioned_by", "comment", "engine", "auto_increment", "default_charset", "collate", "row_format", "states_persistent", "row_format_serde", "row_format_delimited_fields_terminated_by", "stored_as_inputformat", "stored_as_textfile", "outputformat", "location", "tblproperties"]),
   ("ASTDefineColumnExpression", ["column_name", "column_type", "is_unsigned", "is_zerofill", "character_set", "collate", "generated_always_as", "is_allow_null", "is_not_null", "is_auto_increment", "default", "on_update", "comment"]),
   ("ASTDeleteStatement", ["table_name", "where_clause", "order_by_clause", "limit_clause"]),
@@ -571,7 +571,7 @@ theorem stmt_sat : ∀ s : Stmt, Q.P s.toVal = true
     have := tblName_sat hN t; have := whereVal_sat hN wh; have := orderVal_sat hN ob; have := limit_sat hN lm
     simp only [Stmt.toVal]; node_simp; shape_goals
   | .createTable c => createTable_sat hN c
-  | .createTableAs t q => by
+  | .createTableAs t ine q => by
     have := tblName_sat hN t; have := query_sat hN q
     simp only [Stmt.toVal]; node_simp; shape_goals
   | .dropTable b t => by
